@@ -21,6 +21,14 @@ type Delivery struct {
 	Msg     *message.Message
 	Step    int64
 	Topic   string
+	Emitted bool
+	SubN    int // number of the Subscribe call (1-based) this delivery belongs to
+	Sub     *ScriptedSubscriber
+	// scenario scratch space
+	Handled  int
+	Started  int64
+	Finished int64
+	Tag      any
 }
 
 func (d *Delivery) Acked() bool  { return isClosed(d.Msg.Acked()) }
@@ -54,7 +62,8 @@ type ScriptedSubscriber struct {
 
 	Subscribes map[string]int
 	Closes     int
-	Deliveries []*Delivery
+	Deliveries []*Delivery // emitted deliveries in emission order
+	ByMsg      map[*message.Message]*Delivery
 	closing    chan struct{}
 	closed     bool
 	wg         sync.WaitGroup
@@ -65,7 +74,7 @@ type ScriptedSubscriber struct {
 
 func NewScriptedSubscriber(r *Run, name string) *ScriptedSubscriber {
 	return &ScriptedSubscriber{R: r, Name: name, Script: map[string][]ScriptMsg{}, Lanes: 1, MaxRedeliver: 6,
-		Subscribes: map[string]int{}, closing: make(chan struct{})}
+		Subscribes: map[string]int{}, closing: make(chan struct{}), ByMsg: map[*message.Message]*Delivery{}}
 }
 
 func (s *ScriptedSubscriber) Subscribe(ctx context.Context, topic string) (<-chan *message.Message, error) {
@@ -79,6 +88,7 @@ func (s *ScriptedSubscriber) Subscribe(ctx context.Context, topic string) (<-cha
 	}
 	out := make(chan *message.Message)
 	script := s.Script[topic]
+	subN := s.nSub
 	lanes := s.Lanes
 	if lanes < 1 {
 		lanes = 1
@@ -91,7 +101,7 @@ func (s *ScriptedSubscriber) Subscribe(ctx context.Context, topic string) (<-cha
 		go func() {
 			defer laneWg.Done()
 			for i := l; i < len(script); i += lanes {
-				if !s.deliver(ctx, out, topic, i, script[i]) {
+				if !s.deliver(ctx, out, topic, subN, i, script[i]) {
 					return
 				}
 			}
@@ -110,7 +120,7 @@ func (s *ScriptedSubscriber) Subscribe(ctx context.Context, topic string) (<-cha
 }
 
 // deliver returns false when the subscription ended.
-func (s *ScriptedSubscriber) deliver(ctx context.Context, out chan *message.Message, topic string, idx int, sm ScriptMsg) bool {
+func (s *ScriptedSubscriber) deliver(ctx context.Context, out chan *message.Message, topic string, subN, idx int, sm ScriptMsg) bool {
 	extra := sm.Dup
 	for attempt := 0; ; attempt++ {
 		m := message.NewMessage(sm.UUID, []byte(sm.Payload))
@@ -119,18 +129,34 @@ func (s *ScriptedSubscriber) deliver(ctx context.Context, out chan *message.Mess
 		}
 		mctx, cancel := context.WithCancel(ctx)
 		m.SetContext(mctx)
-		d := &Delivery{Idx: idx, Attempt: attempt, Msg: m, Topic: topic}
+		m.Metadata.Set("x-attempt", fmt.Sprint(attempt))
+		d := &Delivery{Idx: idx, Attempt: attempt, Msg: m, Topic: topic, Sub: s, SubN: subN}
+		// registered before the send: the receiver may run before this goroutine is scheduled again
+		d.Emitted = true
+		d.Step = s.R.Sim.Step()
+		s.Deliveries = append(s.Deliveries, d)
+		s.ByMsg[m] = d
+		unemit := func() {
+			d.Emitted = false
+			delete(s.ByMsg, m)
+			for i, x := range s.Deliveries {
+				if x == d {
+					s.Deliveries = append(s.Deliveries[:i], s.Deliveries[i+1:]...)
+					break
+				}
+			}
+		}
 		select {
 		case out <- m:
 		case <-ctx.Done():
+			unemit()
 			cancel()
 			return false
 		case <-s.closing:
+			unemit()
 			cancel()
 			return false
 		}
-		d.Step = s.R.Sim.Step()
-		s.Deliveries = append(s.Deliveries, d)
 		if s.OnEmit != nil {
 			s.OnEmit(d)
 		}
@@ -211,6 +237,8 @@ type ScriptedPublisher struct {
 	Name   string
 	Inner  message.Publisher
 	FailAt map[int]PubFault // 1-based call number -> fault
+	// Decide, when set, chooses the fault from the call's content (schedule independent)
+	Decide func(c *PubCall) PubFault
 	// Hook runs at the start of every call (oracles sample state here)
 	Hook   func(c *PubCall)
 	Calls  []*PubCall
@@ -229,6 +257,9 @@ func (p *ScriptedPublisher) Publish(topic string, msgs ...*message.Message) erro
 		c.Snap = append(c.Snap, m.Copy())
 	}
 	c.Fault = p.FailAt[c.N]
+	if p.Decide != nil {
+		c.Fault = p.Decide(c)
+	}
 	p.Calls = append(p.Calls, c)
 	if p.Hook != nil {
 		p.Hook(c)
@@ -271,4 +302,32 @@ func (p *ScriptedPublisher) Accepted() []*PubCall {
 		}
 	}
 	return out
+}
+
+// ---------------------------------------------------------------------------
+// CountingSubscriber wraps a real subscriber and counts Subscribe calls per topic.
+
+type CountingSubscriber struct {
+	Inner    message.Subscriber
+	Invoked  map[string]int
+	Returned map[string]int
+	Closes   int
+}
+
+func NewCountingSubscriber(inner message.Subscriber) *CountingSubscriber {
+	return &CountingSubscriber{Inner: inner, Invoked: map[string]int{}, Returned: map[string]int{}}
+}
+
+func (c *CountingSubscriber) Subscribe(ctx context.Context, topic string) (<-chan *message.Message, error) {
+	c.Invoked[topic]++
+	ch, err := c.Inner.Subscribe(ctx, topic)
+	if err == nil {
+		c.Returned[topic]++
+	}
+	return ch, err
+}
+
+func (c *CountingSubscriber) Close() error {
+	c.Closes++
+	return c.Inner.Close()
 }
